@@ -72,7 +72,7 @@ def extract_boundary_of_surface(mesh : SurfaceMesh) -> PolyLine :
 
     Returns:
         PolyLine: boundary curves of the mesh
-        dict: maps a vertex id in the boundary to its corresponding id in the original mesh.
+        dict: maps a vertex id of the original mesh (a boundary vertex) to its corresponding id in the boundary polyline.
     """
     bound = PolyLine()
     visited = Attribute(bool)
